@@ -88,8 +88,9 @@ def parseOp (ws : List String) : Option Op :=
 
 def dstep (s : State) (line : String) : State × List String :=
   match words line with
-  | ["N", h] => ({ fixed := s.fixed }, [s!"n {h}"])
+  | ["N", h] => ({ fixed := s.fixed, fixedNeg := s.fixedNeg }, [s!"n {h}"])
   | ["CFG", "fixed", b] => ({ s with fixed := parseBool b }, [])
+  | ["CFG", "negfix", b] => ({ s with fixedNeg := parseBool b }, [])
   | [] => (s, [])
   | "q" :: ws =>
     -- quiet op (part of a batch whose intermediate implementation states are not observable): result only
